@@ -272,7 +272,11 @@ func runC15(env *lib.Env, rep *lib.Report) {
 		}
 		seen := map[string][]c15Op{"": nil}
 		frontier := [][]c15Op{nil}
-		var states, trans int64 = 1, 0
+		var states, trans, lookahead int64 = 1, 0, 0
+		lookDepth := 1
+		if sc.cap <= 3 && sc.keys <= 5 || env.Thorough() && sc.cap <= 4 && sc.keys <= 5 {
+			lookDepth = 2
+		}
 		outcomes := map[string]bool{}
 		for len(frontier) > 0 {
 			path := frontier[0]
@@ -303,6 +307,43 @@ func runC15(env *lib.Env, rep *lib.Report) {
 							Trace: tr, Params: fmt.Sprintf("cap=%d keys=%d", sc.cap, sc.keys)})
 						continue // do not explore beyond a broken state
 					}
+					if _, ok := seen[key]; ok && len(np) > len(seen[key]) {
+						// A different (longer) path into an already known canonical state. The search does
+						// not expand it again, which is only sound if the cache has no state beyond the
+						// recency order and the dirty flags. Check that: every sequence of one and of two
+						// further operations applied after THIS path must still agree with the model
+						// (two steps only where the scope is small enough: see lookDepth).
+						var look func(prefix []c15Op, depth int)
+						look = func(prefix []c15Op, depth int) {
+							for k2 := 0; k2 < 6; k2++ {
+								for key2 := 0; key2 < sc.keys; key2++ {
+									l2, m2, p2 := c15Replay(sc.cap, prefix)
+									if p2 != "" {
+										return
+									}
+									ok2, p2 := c15Apply(l2, m2, c15Op{k2, key2})
+									if !ok2 {
+										continue
+									}
+									lookahead++
+									full := append(append([]c15Op{}, prefix...), c15Op{k2, key2})
+									if p2 != "" {
+										tr := make([]string, len(full))
+										for i, o := range full {
+											tr[i] = o.String()
+										}
+										rep.AddFailure(&lib.Failure{Kind: "lru-model-mismatch", Detail: fmt.Sprintf("capacity %d, keys %d, after %v (a longer path into a known recency/dirty state): %s", sc.cap, sc.keys, full, p2),
+											Trace: tr, Params: fmt.Sprintf("cap=%d keys=%d", sc.cap, sc.keys)})
+										continue
+									}
+									if depth > 1 {
+										look(full, depth-1)
+									}
+								}
+							}
+						}
+						look(np, lookDepth)
+					}
 					if _, ok := seen[key]; !ok {
 						seen[key] = np
 						frontier = append(frontier, np)
@@ -317,7 +358,8 @@ func runC15(env *lib.Env, rep *lib.Report) {
 		rep.States += states
 		rep.Transitions += trans
 		rep.Tags[fmt.Sprintf("scope-%d-%d-fixpoint", sc.cap, sc.keys)]++
-		rep.Notes = append(rep.Notes, fmt.Sprintf("capacity %d, %d keys: %d states, %d transitions, fixpoint reached", sc.cap, sc.keys, states, trans))
+		rep.Notes = append(rep.Notes, fmt.Sprintf("capacity %d, %d keys: %d states, %d transitions, fixpoint reached; %d lookahead steps (depth %d) from non-shortest paths into known states (abstraction check)", sc.cap, sc.keys, states, trans, lookahead, lookDepth))
+		rep.Transitions += lookahead
 		// closed form: ordered selections of <= cap of the keys, each clean or dirty
 		want := int64(0)
 		for n := 0; n <= sc.cap && n <= sc.keys; n++ {
